@@ -14,6 +14,12 @@
   multi        several certificates sharing account and endpoint of which a subset fails for ever in OTHER ways
                than a refused newOrder: its own challenge hook fails, finalize refused, authorization invalid,
                its account cannot be registered; and the degenerate sizes (1 certificate, none failing).
+  hookio       hooks that are FED through their standard input and read it to its end (the recorder does; so do
+               sendmail, cat, openssl …): `stdin_str` templates (the status on post-operation, the proof on challenge
+               hooks, an EMPTY string) and `stdin` FILES (a few lines; more than a pipe holds) on post-operation,
+               challenge, clean and file hooks, with and without a failing first attempt; and a certificate failing
+               for ever whose failure report goes through such a hook next to healthy ones.  An attempt whose hook
+               never sees the end of its input never ends: watched for 32 s without any sign of life (bound: 30 s).
 
 The daemon runs are started in the background by `start` (they only produce observations) and judged in the
 main thread by `finish`, so that they overlap with the base parts of the check.
@@ -53,7 +59,8 @@ def run_rules(sc, root, helper, n_postop, timeout):
             f.write(r["key_pem"])
     cert = {"name": "crt", "identifiers": flowgrid.IDENTS, "kp_reuse": bool(sc.get("kp_reuse")), "key_type": "ecdsa_p256"}
     obs = flow.run_scenario(d, [cert], ca_opts=dict(sc.get("ca_opts") or {}), rules=[dict(r, answer=dict(r["answer"])) for r in sc["rules"]],
-                            n_postop=n_postop, timeout=timeout, helper=helper, hook_exits=sc.get("hook_exits"))
+                            n_postop=n_postop, timeout=timeout, helper=helper, hook_exits=sc.get("hook_exits"),
+                            hooks_edit=(lambda cfg, root: feed_hooks(cfg, root, sc["hook_io"])) if sc.get("hook_io") else None)
     posts = [h for h in obs["hooks"] if h["name"] == "rec-post-operation"]
     obs.update({"sc": sc, "posts": posts, "crt_path": crt, "key_path": key})
     return obs
@@ -115,6 +122,85 @@ def gen_newnonce(rng, quick):
              "fault": "newNonce:" + l, "ca_opts": {"nonce_on_get": False}, "pair": False} for i, (l, a) in enumerate(answers)]
 
 
+FEED_LINES = "first line of the hook's input\nsecond line\n"
+
+
+def feed_text(io):
+    """The content of the stdin FILE of a plan: a few lines, or more than a pipe holds (64 KiB)."""
+    return FEED_LINES if io["value"] == "lines" else "".join("%06d input for the hook\n" % i for i in range(3200))
+
+
+def feed_hooks(cfg, root, io):
+    """Gives the recorder hook(s) of type io["type"] a standard input: `stdin_str` (a template) or `stdin` (a file).
+    py/hookrec.py reads its standard input up to its END before it writes its record."""
+    n = 0
+    for h in cfg["hook"]:
+        if h["type"] == [io["type"]] and h["name"].startswith(io.get("only", "")):
+            if io["member"] == "stdin":
+                path = os.path.join(root, "stdin-feed.txt")
+                with open(path, "w") as f:
+                    f.write(feed_text(io))
+                h["stdin"] = path
+            else:
+                h["stdin_str"] = io["value"]
+            n += 1
+    assert n, "no hook of type %s" % io["type"]
+
+
+def gen_hookio(rng, quick):
+    fail_first = lambda: {"kind": rng.choice(["newOrder", "finalize", "newAccount"]), "nth": 0, "answer": problem("unauthorized", 403), "label": "unauthorized"}
+    plans = [("post-operation", "stdin_str", "{{ status }}|{{ is_success }}\n", True, False),
+             ("post-operation", "stdin", "lines", True, False),
+             ("post-operation", "stdin_str", "", False, False),
+             ("challenge-http-01", "stdin_str", "{{ proof }}", False, False),
+             ("challenge-dns-01", "stdin", "big", False, False),
+             ("challenge-http-01-clean", "stdin_str", "", True, False),
+             ("file-pre-create", "stdin_str", "{{ file_name }} in {{ file_directory }}\n", False, False),
+             ("file-post-create", "stdin", "lines", True, False),
+             ("file-post-edit", "stdin_str", "{{ file_path }}", False, True)]
+    if not quick:
+        plans += [(t, m, v, not f, p) for t, m, v, f, p in plans if t != "file-post-edit"]
+        plans += [("challenge-dns-01-clean", "stdin", "lines", False, False), ("file-pre-edit", "stdin", "big", False, True),
+                  ("post-operation", "stdin", "big", True, True), ("challenge-dns-01", "stdin_str", "{{ proof }}\n{{ identifier }}\n", True, False)]
+    out = []
+    for i, (t, member, val, fail, pair) in enumerate(plans):
+        rules = [fail_first()] if fail else []
+        out.append({"idx": 5000 + i, "class": "hookio", "rules": rules, "pair": pair, "n_postop": 2 if fail else 1,
+                    "hook_io": {"type": t, "member": member, "value": val},
+                    "fault": "%s fed by %s=%r%s" % (t, member, val, (" after " + rules[0]["label"] + "@" + rules[0]["kind"]) if fail else "")})
+    return out
+
+
+def judge_hookio(ctx, obs):
+    """What the attempt-level judge cannot see from the records alone: the run reached its reports (an attempt whose
+    fed hook never ends leaves NO record), no hook ran for longer than the bound, and the plan was exercised."""
+    sc = obs["sc"]
+    io = sc["hook_io"]
+    robj = {"part": "x:hookio", "sc": sc, "rc": obs["rc"],
+            "hooks": [{"name": h.get("name"), "ms": (h.get("t_end", h["t"]) - h["t"]) // 10 ** 6, "stdin_len": len(h.get("stdin") or "")} for h in obs["hooks"] if h.get("kind") == "hook"][:40],
+            "stderr_tail": obs["stderr"][-400:]}
+    slow = [h for h in obs["hooks"] if h.get("kind") == "hook" and (h.get("t_end", h["t"]) - h["t"]) // 10 ** 6 > BOUND_MS]
+    if obs["rc"] is None and (not obs["completed"] or slow):
+        n = len(obs["posts"])
+        ctx.violation("hook %s fed through %s (%r): attempt did not end: %d of %d post-operation record(s), then no request and no hook "
+                      "record for %d s with the daemon alive%s" % (io["type"], io["member"], io["value"], n, sc["n_postop"], HOOKIO_IDLE,
+                                                                  "; a hook ran for %d ms" % ((slow[0]["t_end"] - slow[0]["t"]) // 10 ** 6) if slow else ""), robj)
+        return False
+    fed = [h for h in obs["hooks"] if h.get("kind") == "hook" and h.get("name") == "rec-" + io["type"]]
+    ctx.count("x:hookio:fed-hook-runs", len(fed))
+    ctx.count("x:hookio:%s:%s" % (io["member"], "empty" if io["value"] == "" else io["value"] if io["member"] == "stdin" else "template"))
+    if not fed:
+        ctx.broke("harness", "hookio: the fed hook %s never ran" % io["type"], robj)
+    elif io["member"] == "stdin" and any(h.get("stdin") != feed_text(io) for h in fed):
+        ctx.count("x:hookio:stdin-file-content-differs")      # (what a hook is fed is C10's subject: counted only)
+    elif io["member"] == "stdin_str" and io["value"] and any(not h.get("stdin") for h in fed):
+        ctx.count("x:hookio:stdin-str-empty")
+    return True
+
+
+HOOKIO_IDLE = 32
+
+
 def judge_single(ctx, obs, helper):
     from props import c07
     sc = obs["sc"]
@@ -130,6 +216,8 @@ def judge_single(ctx, obs, helper):
     robj = {"part": "x:" + sc["class"], "sc": sc, "attempts": ended, "rc": obs["rc"]}
     if obs["rc"] is not None:
         ctx.violation("the daemon process ended (status %s) under the faults %s: %s" % (obs["rc"], sc["fault"], obs["stderr"][-300:]), robj)
+        return
+    if sc["class"] == "hookio" and not judge_hookio(ctx, obs):
         return
     if not ended:
         ctx.violation("no attempt ended within the time limit (faults %s)" % sc["fault"], robj)
@@ -173,6 +261,8 @@ def gen_daemon_scenarios(rng, quick):
         k = rng.randint(2, 5)
         scs.append({"class": "multi", "how": how, "k": k, "failing": sorted(rng.sample(range(k), rng.randint(1, k - 1)))})
     scs.append({"class": "multi", "how": "none", "k": 1, "failing": []})
+    # a certificate failing for ever (its challenge hook fails) whose failure report goes through a hook fed by stdin
+    scs.append({"class": "multi", "how": "hook+report-fed-by-" + rng.choice(["stdin_str", "stdin"]), "k": 3, "failing": [rng.randrange(3)]})
     if not quick:
         scs.append({"class": "multi", "how": "none", "k": 6, "failing": []})
         scs.append({"class": "multi", "how": "hook", "k": 1, "failing": [0]})
@@ -218,6 +308,16 @@ def run_daemon(sc, root, helper):
         for c in cfg["certificate"]:
             if c["name"].startswith("fail"):
                 c["hooks"] = ["fail-chall", "rec-all"]
+    if how.startswith("hook+report-fed-by-"):
+        # its own record file (and lock file): a reader that never sees the end of its input must not hold up the
+        # recorder hooks of the other certificates
+        cfg["hook"].append(flow.recorder_hook("fail-chall", "challenge-http-01", log, 1))
+        cfg["hook"].append(flow.recorder_hook("fed-report", "post-operation", os.path.join(d, "fed.log")))
+        feed_hooks(cfg, d, {"type": "post-operation", "only": "fed-", "member": how.split("-by-")[1],
+                            "value": "{{ status }}\n" if how.endswith("stdin_str") else "lines"})
+        for c in cfg["certificate"]:
+            if c["name"].startswith("fail"):
+                c["hooks"] = ["fail-chall", "fed-report", "rec-all"]
     for n in names:
         crt, key = flow.cert_paths(d, n)
         if n.startswith("fail") and how in ("corrupt-cert", "cert-is-dir", "key-is-dir"):
@@ -323,11 +423,14 @@ def start(ctx, helper, root):
     quick = ctx.quick()
     rng = random.Random(ctx.seed * 7 + 7)      # its own stream: the base parts keep their sequence
     singles = gen_scripts(rng, 10 if quick else 150) + gen_cut(rng, quick) + gen_newnonce(rng, quick)
+    singles = gen_hookio(random.Random(ctx.seed * 7 + 8), quick) + singles
     daemons = gen_daemon_scenarios(rng, quick)
     ex = concurrent.futures.ThreadPoolExecutor(max_workers=10)
     xroot = os.path.join(root, "x")
 
     def single(sc):
+        if sc["class"] == "hookio":
+            return run_rules(sc, xroot, helper, n_postop=sc["n_postop"], timeout=HOOKIO_IDLE)
         n = 4 if sc["class"] == "script" else 2
         return run_rules(sc, xroot, helper, n_postop=n, timeout=5 if sc["class"] == "script" else 6)
     futs = [("single", ex.submit(single, sc)) for sc in singles]
@@ -351,7 +454,9 @@ def finish(ctx, handle, helper):
 def replay(ctx, obj, helper, root):
     sc = dict(obj["sc"])
     n0 = len(ctx.violations)
-    if obj["part"] in ("x:script", "x:cut", "x:newNonce"):
+    if obj["part"] == "x:hookio":
+        judge_single(ctx, run_rules(sc, root, helper, n_postop=sc["n_postop"], timeout=HOOKIO_IDLE), helper)
+    elif obj["part"] in ("x:script", "x:cut", "x:newNonce"):
         judge_single(ctx, run_rules(sc, root, helper, n_postop=4 if sc["class"] == "script" else 2, timeout=12), helper)
     else:
         judge_daemon(ctx, run_daemon(sc, root, helper))
